@@ -1,3 +1,378 @@
-(* C15 — one canonical encoding (theorems are added below as they are proved) *)
-From Coq Require Import List NArith Bool.
-From HV Require Import Lib.Bytes Lib.Canoto Model.TxCodec.
+(* C15 — transactions, blocks, batches and execution results have one canonical encoding.
+
+   All theorems are about the decoders / encoders of Model/TxCodec.v (over Lib/Canoto.v, Lib/Varint.v), the
+   same definitions Check/C15_check.v runs against chain.UnmarshalTx, BatchedTransactionSerializer.Unmarshal,
+   chain.UnmarshalBlock, chain.ParseExecutionResults and chain.UnmarshalResult on every check.
+   They hold for EVERY byte string (wf_bytes bs: every element is a byte, < 256) and every parser pair.
+
+   Parsers (chain.Parser) are universally quantified; [canonical_parser parse bytes_of] says
+   "parse b = Some a -> bytes_of a = b".  The C15_morpheus_* theorems discharge that hypothesis for the
+   MorpheusVM registry (codec.TypeParser over UnmarshalTransfer / linearcodec and the ed25519, secp256r1, BLS
+   auth formats; the BLS point check is an arbitrary boolean function), leaving only wf_bytes.
+
+   Not modelled: chain.ExecutedBlock (node-internal storage format, never received from the network). *)
+From Coq Require Import List ZArith NArith Bool.
+Import ListNotations.
+From HV Require Import Lib.Bytes Lib.U64 Lib.Varint Lib.Canoto Model.TxCodec Proofs.TxCodec_proofs.
+Local Open Scope N_scope.
+
+(* ---- canonical encoding: whatever is accepted re-encodes to the accepted bytes ------------- *)
+
+Theorem C15_canonical_base : forall bs b,
+  wf_bytes bs -> decode_base bs = Ok b -> encode_base b = bs.
+Proof. exact decode_base_canon. Qed.
+Print Assumptions C15_canonical_base.
+
+Theorem C15_canonical_stx : forall bs s,
+  wf_bytes bs -> decode_stx bs = Ok s -> encode_stx s = bs.
+Proof. exact decode_stx_canon. Qed.
+Print Assumptions C15_canonical_stx.
+
+(* Transaction.UnmarshalCanotoFrom: NewTransaction(Base, Actions, Auth).Bytes() of the parsed parts is the
+   input, and the cached bytes (from which the id is computed) are the input *)
+Theorem C15_canonical_tx :
+  forall (A U : Type) (parse_action : bytes -> option A) (action_bytes : A -> bytes)
+         (parse_auth : bytes -> option U) (auth_bytes : U -> bytes),
+  canonical_parser parse_action action_bytes -> canonical_parser parse_auth auth_bytes ->
+  forall bs t, wf_bytes bs -> decode_tx A U parse_action parse_auth bs = Ok t ->
+    encode_tx A U action_bytes auth_bytes (x_base t) (x_actions t) (x_auth t) = bs /\ x_bytes t = bs.
+Proof.
+  intros A U pa ab pu ub Ha Hu bs t Hwf H. split.
+  - exact (decode_tx_canon A U pa ab pu ub Ha Hu bs t Hwf H).
+  - exact (decode_tx_bytes A U pa pu bs t H).
+Qed.
+Print Assumptions C15_canonical_tx.
+
+(* BatchedTransactionSerializer.Unmarshal: Marshal of the accepted transactions (cached bytes) and the batch
+   rebuilt from every transaction's parsed parts both equal the input *)
+Theorem C15_canonical_batch :
+  forall (A U : Type) (parse_action : bytes -> option A) (action_bytes : A -> bytes)
+         (parse_auth : bytes -> option U) (auth_bytes : U -> bytes),
+  canonical_parser parse_action action_bytes -> canonical_parser parse_auth auth_bytes ->
+  forall bs ts, wf_bytes bs -> decode_batch A U parse_action parse_auth bs = Ok ts ->
+    encode_batch A U ts = bs /\
+    enc_repeated (tag 1 WT_LEN) (map (reenc_tx A U action_bytes auth_bytes) ts) = bs.
+Proof.
+  intros A U pa ab pu ub Ha Hu bs ts Hwf H.
+  destruct (decode_batch_canon A U pa ab pu ub Ha Hu bs ts Hwf H) as (H1 & H2 & _). split; assumption.
+Qed.
+Print Assumptions C15_canonical_batch.
+
+(* StatelessBlock.UnmarshalCanotoFrom: NewStatelessBlock(parsed header, accepted txs).GetBytes() is the input,
+   the cached bytes are the input, and every contained transaction re-encodes from its parts to its own bytes *)
+Theorem C15_canonical_block :
+  forall (A U : Type) (parse_action : bytes -> option A) (action_bytes : A -> bytes)
+         (parse_auth : bytes -> option U) (auth_bytes : U -> bytes),
+  canonical_parser parse_action action_bytes -> canonical_parser parse_auth auth_bytes ->
+  forall bs k, wf_bytes bs -> decode_block A U parse_action parse_auth bs = Ok k ->
+    encode_block A U (k_parent k) (k_ts k) (k_height k) (k_ctx k) (k_txs k) (k_root k) = bs /\
+    k_bytes k = bs /\
+    map (reenc_tx A U action_bytes auth_bytes) (k_txs k) = map x_bytes (k_txs k).
+Proof.
+  intros A U pa ab pu ub Ha Hu bs k Hwf H.
+  destruct (decode_block_canon A U pa ab pu ub Ha Hu bs k Hwf H) as (H1 & H2 & H3 & _). repeat split; assumption.
+Qed.
+Print Assumptions C15_canonical_block.
+
+Theorem C15_canonical_result : forall bs r,
+  wf_bytes bs -> decode_result bs = Ok r -> encode_result r = bs.
+Proof. exact decode_result_canon. Qed.
+Print Assumptions C15_canonical_result.
+
+Theorem C15_canonical_results : forall bs e,
+  wf_bytes bs -> decode_results bs = Ok e -> encode_results e = bs.
+Proof. exact decode_results_canon. Qed.
+Print Assumptions C15_canonical_results.
+
+(* ---- the signed message ---------------------------------------------------------------------- *)
+
+(* the unsigned bytes sliced off the tail of an accepted transaction are NewTxData(Base, Actions).UnsignedBytes(),
+   i.e. the encoding of the body without the auth field, and the accepted bytes are that ++ the auth field *)
+Theorem C15_unsigned_suffix :
+  forall (A U : Type) (parse_action : bytes -> option A) (action_bytes : A -> bytes)
+         (parse_auth : bytes -> option U) (auth_bytes : U -> bytes),
+  canonical_parser parse_action action_bytes -> canonical_parser parse_auth auth_bytes ->
+  forall bs t, wf_bytes bs -> decode_tx A U parse_action parse_auth bs = Ok t ->
+    x_unsigned t = unsigned_of A action_bytes (x_base t) (x_actions t) /\
+    bs = x_unsigned t ++ enc_msg_field (tag 3 WT_LEN) (auth_bytes (x_auth t)).
+Proof. exact decode_tx_unsigned. Qed.
+Print Assumptions C15_unsigned_suffix.
+
+(* ---- ids -------------------------------------------------------------------------------------- *)
+
+(* The id of a transaction / block is the hash of its cached bytes (utils.ToID(t.bytes); the hash is an
+   arbitrary function here).  For an accepted value this is the hash of the input and the hash of the
+   re-encoding of the parsed parts. *)
+Definition tx_id {A U T} (H : bytes -> T) (t : tx A U) : T := H (x_bytes t).
+Definition block_id {A U T} (H : bytes -> T) (k : block A U) : T := H (k_bytes k).
+
+Theorem C15_id_is_hash_of_bytes :
+  forall (T : Type) (H : bytes -> T)
+         (A U : Type) (parse_action : bytes -> option A) (action_bytes : A -> bytes)
+         (parse_auth : bytes -> option U) (auth_bytes : U -> bytes),
+  canonical_parser parse_action action_bytes -> canonical_parser parse_auth auth_bytes ->
+  (forall bs t, wf_bytes bs -> decode_tx A U parse_action parse_auth bs = Ok t ->
+     tx_id H t = H bs /\
+     tx_id H t = H (encode_tx A U action_bytes auth_bytes (x_base t) (x_actions t) (x_auth t))) /\
+  (forall bs k, wf_bytes bs -> decode_block A U parse_action parse_auth bs = Ok k ->
+     block_id H k = H bs /\
+     block_id H k = H (encode_block A U (k_parent k) (k_ts k) (k_height k) (k_ctx k) (k_txs k) (k_root k))).
+Proof.
+  intros T H A U pa ab pu ub Ha Hu. split.
+  - intros bs t Hwf Hd. destruct (C15_canonical_tx A U pa ab pu ub Ha Hu bs t Hwf Hd) as [H1 H2].
+    unfold tx_id. rewrite H1, H2. split; reflexivity.
+  - intros bs k Hwf Hd. destruct (C15_canonical_block A U pa ab pu ub Ha Hu bs k Hwf Hd) as (H1 & H2 & _).
+    unfold block_id. rewrite H1, H2. split; reflexivity.
+Qed.
+Print Assumptions C15_id_is_hash_of_bytes.
+
+(* ---- injectivity ------------------------------------------------------------------------------ *)
+
+(* two accepted encodings with the same parsed parts are the same byte string *)
+Theorem C15_injective :
+  forall (A U : Type) (parse_action : bytes -> option A) (action_bytes : A -> bytes)
+         (parse_auth : bytes -> option U) (auth_bytes : U -> bytes),
+  canonical_parser parse_action action_bytes -> canonical_parser parse_auth auth_bytes ->
+  forall bs1 bs2 t1 t2, wf_bytes bs1 -> wf_bytes bs2 ->
+    decode_tx A U parse_action parse_auth bs1 = Ok t1 -> decode_tx A U parse_action parse_auth bs2 = Ok t2 ->
+    x_base t1 = x_base t2 -> x_actions t1 = x_actions t2 -> x_auth t1 = x_auth t2 -> bs1 = bs2.
+Proof.
+  intros A U pa ab pu ub Ha Hu bs1 bs2 t1 t2 W1 W2 D1 D2 Eb Ea Eu.
+  destruct (C15_canonical_tx A U pa ab pu ub Ha Hu bs1 t1 W1 D1) as [H1 _].
+  destruct (C15_canonical_tx A U pa ab pu ub Ha Hu bs2 t2 W2 D2) as [H2 _].
+  rewrite <- H1, <- H2, Eb, Ea, Eu. reflexivity.
+Qed.
+Print Assumptions C15_injective.
+
+(* no two distinct accepted encodings share a signed body and a signature (auth bytes) *)
+Theorem C15_injective_body_sig :
+  forall (A U : Type) (parse_action : bytes -> option A) (action_bytes : A -> bytes)
+         (parse_auth : bytes -> option U) (auth_bytes : U -> bytes),
+  canonical_parser parse_action action_bytes -> canonical_parser parse_auth auth_bytes ->
+  forall bs1 bs2 t1 t2, wf_bytes bs1 -> wf_bytes bs2 ->
+    decode_tx A U parse_action parse_auth bs1 = Ok t1 -> decode_tx A U parse_action parse_auth bs2 = Ok t2 ->
+    x_unsigned t1 = x_unsigned t2 -> auth_bytes (x_auth t1) = auth_bytes (x_auth t2) -> bs1 = bs2.
+Proof.
+  intros A U pa ab pu ub Ha Hu bs1 bs2 t1 t2 W1 W2 D1 D2 Eun Eau.
+  destruct (decode_tx_unsigned A U pa ab pu ub Ha Hu bs1 t1 W1 D1) as [_ H1].
+  destruct (decode_tx_unsigned A U pa ab pu ub Ha Hu bs2 t2 W2 D2) as [_ H2].
+  rewrite H1, H2, Eun, Eau. reflexivity.
+Qed.
+Print Assumptions C15_injective_body_sig.
+
+Theorem C15_injective_block :
+  forall (A U : Type) (parse_action : bytes -> option A) (action_bytes : A -> bytes)
+         (parse_auth : bytes -> option U) (auth_bytes : U -> bytes),
+  canonical_parser parse_action action_bytes -> canonical_parser parse_auth auth_bytes ->
+  forall bs1 bs2 k1 k2, wf_bytes bs1 -> wf_bytes bs2 ->
+    decode_block A U parse_action parse_auth bs1 = Ok k1 -> decode_block A U parse_action parse_auth bs2 = Ok k2 ->
+    k_parent k1 = k_parent k2 -> k_ts k1 = k_ts k2 -> k_height k1 = k_height k2 -> k_ctx k1 = k_ctx k2 ->
+    map x_bytes (k_txs k1) = map x_bytes (k_txs k2) -> k_root k1 = k_root k2 -> bs1 = bs2.
+Proof.
+  intros A U pa ab pu ub Ha Hu bs1 bs2 k1 k2 W1 W2 D1 D2 E1 E2 E3 E4 E5 E6.
+  destruct (C15_canonical_block A U pa ab pu ub Ha Hu bs1 k1 W1 D1) as [H1 _].
+  destruct (C15_canonical_block A U pa ab pu ub Ha Hu bs2 k2 W2 D2) as [H2 _].
+  rewrite <- H1, <- H2. unfold encode_block. rewrite E1, E2, E3, E4, E5, E6. reflexivity.
+Qed.
+Print Assumptions C15_injective_block.
+
+(* execution results: equal decoded values come from equal byte strings *)
+Theorem C15_injective_results : forall bs1 bs2 e,
+  wf_bytes bs1 -> wf_bytes bs2 -> decode_results bs1 = Ok e -> decode_results bs2 = Ok e -> bs1 = bs2.
+Proof.
+  intros bs1 bs2 e W1 W2 D1 D2.
+  rewrite <- (decode_results_canon _ _ W1 D1), <- (decode_results_canon _ _ W2 D2). reflexivity.
+Qed.
+Print Assumptions C15_injective_results.
+
+(* ---- the MorpheusVM parsers are canonical ----------------------------------------------------- *)
+
+(* UnmarshalTransfer behind codec.TypeParser (linearcodec; trailing bytes rejected, fix 0b60f6b) *)
+Theorem C15_morpheus_action_parser_canonical : canonical_parser morpheus_action_parser transfer_bytes.
+Proof. exact morpheus_action_canon. Qed.
+Print Assumptions C15_morpheus_action_parser_canonical.
+
+(* ed25519 / secp256r1 / BLS behind codec.TypeParser: exact length, type id; an auth is its byte string *)
+Theorem C15_morpheus_auth_parser_canonical : forall bls_ok : bytes -> bool,
+  canonical_parser (morpheus_auth_parser bls_ok) auth_id_bytes.
+Proof. exact morpheus_auth_canon. Qed.
+Print Assumptions C15_morpheus_auth_parser_canonical.
+
+Definition mdecode_tx (bls_ok : bytes -> bool) := decode_tx transfer bytes morpheus_action_parser (morpheus_auth_parser bls_ok).
+Definition mencode_tx := encode_tx transfer bytes transfer_bytes auth_id_bytes.
+Definition mdecode_block (bls_ok : bytes -> bool) := decode_block transfer bytes morpheus_action_parser (morpheus_auth_parser bls_ok).
+Definition mdecode_batch (bls_ok : bytes -> bool) := decode_batch transfer bytes morpheus_action_parser (morpheus_auth_parser bls_ok).
+
+(* no hypothesis left except wf_bytes *)
+Theorem C15_morpheus_canonical_tx : forall bls_ok bs t,
+  wf_bytes bs -> mdecode_tx bls_ok bs = Ok t ->
+  mencode_tx (x_base t) (x_actions t) (x_auth t) = bs /\ x_bytes t = bs /\
+  x_unsigned t = unsigned_of transfer transfer_bytes (x_base t) (x_actions t) /\
+  bs = x_unsigned t ++ enc_msg_field (tag 3 WT_LEN) (x_auth t).
+Proof.
+  intros bls_ok bs t Hwf H.
+  destruct (C15_canonical_tx _ _ _ _ _ _ morpheus_action_canon (morpheus_auth_canon bls_ok) bs t Hwf H) as [H1 H2].
+  destruct (C15_unsigned_suffix _ _ _ _ _ _ morpheus_action_canon (morpheus_auth_canon bls_ok) bs t Hwf H) as [H3 H4].
+  repeat split; assumption.
+Qed.
+Print Assumptions C15_morpheus_canonical_tx.
+
+Theorem C15_morpheus_canonical_block : forall bls_ok bs k,
+  wf_bytes bs -> mdecode_block bls_ok bs = Ok k ->
+  encode_block transfer bytes (k_parent k) (k_ts k) (k_height k) (k_ctx k) (k_txs k) (k_root k) = bs /\
+  k_bytes k = bs /\
+  map (fun t => mencode_tx (x_base t) (x_actions t) (x_auth t)) (k_txs k) = map x_bytes (k_txs k).
+Proof.
+  intros bls_ok bs k Hwf H.
+  exact (C15_canonical_block _ _ _ _ _ _ morpheus_action_canon (morpheus_auth_canon bls_ok) bs k Hwf H).
+Qed.
+Print Assumptions C15_morpheus_canonical_block.
+
+Theorem C15_morpheus_canonical_batch : forall bls_ok bs ts,
+  wf_bytes bs -> mdecode_batch bls_ok bs = Ok ts ->
+  encode_batch transfer bytes ts = bs /\
+  enc_repeated (tag 1 WT_LEN) (map (fun t => mencode_tx (x_base t) (x_actions t) (x_auth t)) ts) = bs.
+Proof.
+  intros bls_ok bs ts Hwf H.
+  exact (C15_canonical_batch _ _ _ _ _ _ morpheus_action_canon (morpheus_auth_canon bls_ok) bs ts Hwf H).
+Qed.
+Print Assumptions C15_morpheus_canonical_batch.
+
+(* ---- round trip: every valid structured value is accepted and parsed back ------------------------- *)
+
+(* validity = what the encoder can represent: timestamp in int64 range, 32-byte chain id, fee < 2^64
+   (absent fields are the zero values, which the encoder omits) *)
+Theorem C15_roundtrip_base : forall b, valid_base b = true -> decode_base (encode_base b) = Ok b.
+Proof. exact decode_base_rt. Qed.
+Print Assumptions C15_roundtrip_base.
+
+Theorem C15_roundtrip_stx : forall s, valid_stx s = true -> decode_stx (encode_stx s) = Ok s.
+Proof. exact decode_stx_rt. Qed.
+Print Assumptions C15_roundtrip_stx.
+
+(* five 64-bit units, fee < 2^64, byte strings shorter than 2^64 *)
+Theorem C15_roundtrip_result : forall r, valid_result r = true -> decode_result (encode_result r) = Ok r.
+Proof. exact decode_result_rt. Qed.
+Print Assumptions C15_roundtrip_result.
+
+(* in addition a present (non-nil) result must not be the all-zero Result: canoto writes that as an empty
+   entry, which is read back as a nil pointer *)
+Theorem C15_roundtrip_results : forall e, valid_results e = true -> decode_results (encode_results e) = Ok e.
+Proof. exact decode_results_rt. Qed.
+Print Assumptions C15_roundtrip_results.
+
+(* NewTransaction(base, actions, auth).Bytes() is accepted and gives back the parts, the encoding as cached
+   bytes and NewTxData(base, actions).UnsignedBytes() as the signed message; [valid_tx_parts]: valid base,
+   parsers that read back what Bytes() of each action / the auth writes, components shorter than 2^64 *)
+Theorem C15_roundtrip_tx :
+  forall (A U : Type) (parse_action : bytes -> option A) (action_bytes : A -> bytes)
+         (parse_auth : bytes -> option U) (auth_bytes : U -> bytes) b acts au,
+  valid_tx_parts A U parse_action action_bytes parse_auth auth_bytes b acts au ->
+  decode_tx A U parse_action parse_auth (encode_tx A U action_bytes auth_bytes b acts au) =
+    Ok (mkTxm b acts au (unsigned_of A action_bytes b acts) (encode_tx A U action_bytes auth_bytes b acts au)).
+Proof. exact decode_tx_rt. Qed.
+Print Assumptions C15_roundtrip_tx.
+
+(* batches / blocks of transactions that carry accepted, non-empty cached bytes *)
+Theorem C15_roundtrip_batch :
+  forall (A U : Type) (parse_action : bytes -> option A) (parse_auth : bytes -> option U) ts,
+  Forall (cached_ok A U parse_action parse_auth) ts ->
+  decode_batch A U parse_action parse_auth (encode_batch A U ts) = Ok ts.
+Proof. exact decode_batch_rt. Qed.
+Print Assumptions C15_roundtrip_batch.
+
+Theorem C15_roundtrip_block :
+  forall (A U : Type) (parse_action : bytes -> option A) (parse_auth : bytes -> option U)
+         prnt ts h ctx txs root,
+  valid_block_parts A U parse_action parse_auth prnt ts h ctx txs root ->
+  decode_block A U parse_action parse_auth (encode_block A U prnt ts h ctx txs root) =
+    Ok (mkBlock prnt ts h ctx txs root (encode_block A U prnt ts h ctx txs root)).
+Proof. exact decode_block_rt. Qed.
+Print Assumptions C15_roundtrip_block.
+
+(* MorpheusVM: validity is a boolean predicate on the parts (33-byte address, value < 2^64, memo <= 256;
+   auth of one of the three formats) *)
+Theorem C15_morpheus_roundtrip_tx : forall bls_ok b acts au,
+  valid_base b = true -> forallb valid_transfer acts = true -> valid_auth bls_ok au = true ->
+  mdecode_tx bls_ok (mencode_tx b acts au) =
+    Ok (mkTxm b acts au (unsigned_of transfer transfer_bytes b acts) (mencode_tx b acts au)).
+Proof.
+  intros bls_ok b acts au Hb Ha Hu.
+  exact (C15_roundtrip_tx _ _ _ _ _ _ b acts au (morpheus_valid_tx_parts bls_ok b acts au Hb Ha Hu)).
+Qed.
+Print Assumptions C15_morpheus_roundtrip_tx.
+
+(* ---- non-vacuity: concrete accepted encodings -------------------------------------------------- *)
+
+Definition ex_base : base := mkBase 1700000000000%Z (repeat 1 32) 77.
+Definition ex_transfer : transfer := mkTransfer (repeat 7 33) 5 [104; 105].
+Definition ex_auth : bytes := 0 :: repeat 9 96.                      (* ed25519: type id, key, signature *)
+Definition ex_tx_bytes : bytes := mencode_tx ex_base [ex_transfer; ex_transfer] ex_auth.
+Definition ex_tx : tx transfer bytes :=
+  mkTxm ex_base [ex_transfer; ex_transfer] ex_auth
+        (unsigned_of transfer transfer_bytes ex_base [ex_transfer; ex_transfer]) ex_tx_bytes.
+
+Example C15_ex_tx_accepted :
+  wf_bytes ex_tx_bytes /\ mdecode_tx (fun _ => true) ex_tx_bytes = Ok ex_tx /\ length ex_tx_bytes = 251%nat.
+Proof. split; [apply wf_bytesb_ok; vm_compute; reflexivity | split; vm_compute; reflexivity]. Qed.
+
+(* a trailing byte is rejected *)
+Example C15_ex_tx_trailing_rejected : mdecode_tx (fun _ => true) (ex_tx_bytes ++ [0]) = Err E_ORDER.
+Proof. vm_compute. reflexivity. Qed.
+
+Definition ex_block_bytes : bytes :=
+  encode_block transfer bytes (repeat 3 32) 1700000000123 9 (Some 42) [ex_tx; ex_tx] (repeat 4 32).
+Example C15_ex_block_accepted :
+  wf_bytes ex_block_bytes /\
+  mdecode_block (fun _ => true) ex_block_bytes =
+    Ok (mkBlock (repeat 3 32) 1700000000123 9 (Some 42) [ex_tx; ex_tx] (repeat 4 32) ex_block_bytes).
+Proof. split; [apply wf_bytesb_ok; vm_compute; reflexivity | vm_compute; reflexivity]. Qed.
+
+Example C15_ex_batch_accepted :
+  mdecode_batch (fun _ => true) (encode_batch transfer bytes [ex_tx; ex_tx]) = Ok [ex_tx; ex_tx].
+Proof. vm_compute. reflexivity. Qed.
+
+Definition ex_result : result := mkResult true [] [[1; 2]; []] [1; 0; 3; 0; 5] 1000.
+Definition ex_results : exec_results := mkER [Some ex_result; None; Some (mkResult false [101] [] dims_zero 0)] [1; 1; 1; 1; 1] dims_zero.
+Example C15_ex_results_accepted :
+  decode_result (encode_result ex_result) = Ok ex_result /\
+  decode_results (encode_results ex_results) = Ok ex_results /\ wf_bytes (encode_results ex_results).
+Proof. split; [|split]; [vm_compute; reflexivity .. | apply wf_bytesb_ok; vm_compute; reflexivity]. Qed.
+
+(* validity hypotheses are satisfiable *)
+Example C15_ex_valid :
+  valid_base ex_base = true /\ forallb valid_transfer [ex_transfer; ex_transfer] = true /\
+  valid_auth (fun _ => true) ex_auth = true /\ valid_result ex_result = true /\ valid_results ex_results = true /\
+  valid_stx (mkStx ex_base [transfer_bytes ex_transfer] ex_auth) = true.
+Proof. repeat split; vm_compute; reflexivity. Qed.
+
+Example C15_ex_cached_ok :
+  cached_ok transfer bytes morpheus_action_parser (morpheus_auth_parser (fun _ => true)) ex_tx /\
+  valid_block_parts transfer bytes morpheus_action_parser (morpheus_auth_parser (fun _ => true))
+    (repeat 3 32) 1700000000123 9 (Some 42) [ex_tx; ex_tx] (repeat 4 32).
+Proof.
+  assert (Hc : cached_ok transfer bytes morpheus_action_parser (morpheus_auth_parser (fun _ => true)) ex_tx).
+  { split; [vm_compute; reflexivity | split; [discriminate | vm_compute; reflexivity]]. }
+  split; [exact Hc|]. repeat split; try (vm_compute; reflexivity). repeat constructor; exact Hc.
+Qed.
+
+(* a transaction produced by the Go code (work/C15_*/cases_0.v: chain.NewTransaction(...).Bytes(), one Transfer
+   with memo "abc", ed25519 auth): accepted, re-encodes to itself, 103 signed bytes *)
+Definition go_tx_bytes : bytes :=
+  [10;50;8;192;201;178;254;249;98;18;32;1;2;3;0;0;0;0;0;0;0;0;0;0;0;0;0;0;0;0;0;0;0;0;0;0;0;0;0;0;0;0;0;25;232;3;0;0;0;0;0;0;18;49;0;0;1;0;0;0;0;0;0;0;0;0;0;0;0;0;0;0;0;0;0;0;0;0;0;0;0;0;0;0;0;0;0;0;0;0;0;0;0;0;0;1;0;0;0;3;97;98;99;26;97;0;0;1;2;3;4;5;6;7;8;9;10;11;12;13;14;15;16;17;18;19;20;21;22;23;24;25;26;27;28;29;30;31;7;7;7;7;7;7;7;7;7;7;7;7;7;7;7;7;7;7;7;7;7;7;7;7;7;7;7;7;7;7;7;7;7;7;7;7;7;7;7;7;7;7;7;7;7;7;7;7;7;7;7;7;7;7;7;7;7;7;7;7;7;7;7;7].
+Example C15_ex_go_tx_accepted :
+  match mdecode_tx (fun _ => true) go_tx_bytes with
+  | Ok t => bytes_eqb (mencode_tx (x_base t) (x_actions t) (x_auth t)) go_tx_bytes &&
+            (blen (x_unsigned t) =? 103) && (b_ts (x_base t) =? 1700000060000)%Z && (b_fee (x_base t) =? 1000)
+  | Err _ => false
+  end = true.
+Proof. vm_compute. reflexivity. Qed.
+
+(* the same transaction with one extra byte inside the Transfer (corpus case; accepted before fix 0b60f6b):
+   a second encoding of the same parsed parts -- rejected *)
+Definition go_tx_trailing_in_action : bytes :=
+  firstn 52 go_tx_bytes ++ [50] ++ firstn 49 (skipn 53 go_tx_bytes) ++ [0] ++ skipn 102 go_tx_bytes.
+Example C15_ex_noncanonical_action_rejected :
+  mdecode_tx (fun _ => true) go_tx_trailing_in_action = Err E_ACTION /\
+  length go_tx_trailing_in_action = S (length go_tx_bytes).
+Proof. split; vm_compute; reflexivity. Qed.
